@@ -456,7 +456,8 @@ int main(int argc, char** argv) {
         static const uint64_t BV[] = {0, 1, 23, 24, 255, 256, 65535, 65536, 1ULL << 24, 1ULL << 27, 1ULL << 30, 0xffffffffULL, 0x100000000ULL, 0x7fffffffffffffffULL, 0x8000000000000000ULL, 0xffffffffffffffffULL};   // incl. mid-range lengths: an allocation sized by such a field exceeds the 64 MiB cap without needing 2^32
         auto run_one = [&](const std::string& desc, const std::string& bytes, Result& R) {
             set_note("desc=" + desc + ";hex=" + (bytes.size() <= 3800 ? hex(bytes) : std::string("<long>")));
-            std::string o = consume::all(bytes);
+            bool reuse = desc.rfind("trunc-", 0) == 0 || desc.rfind("arg-", 0) == 0 || desc.rfind("major-", 0) == 0 || desc.rfind("ai31-", 0) == 0;   // families that break a file inside a later block
+            std::string o = consume::all(bytes, reuse);
             if (o.find("CURSOR-PAST-END") != std::string::npos) R.violation("mutate|decoder-cursor-beyond-buffered-data", "after a decoder call the read cursor is beyond the end of the buffered data (bytes that were never read from the input were consumed) [" + desc + "]", "desc=" + desc + ";hex=" + (bytes.size() <= 3800 ? hex(bytes) : std::string("<long>")));
             R.count("traces"); if (o.find("hdr") != std::string::npos) R.count("nontrivial"); R.outcome(o);
         };
@@ -474,7 +475,7 @@ int main(int argc, char** argv) {
                 else return done(2);
             } else bytes = unhex(hx);
             Pool rp(1, 60);
-            rp.run(1, [&](uint64_t, Result& R) { std::string o = consume::all(bytes); if (o.find("CURSOR-PAST-END") != std::string::npos) R.violation("mutate|decoder-cursor-beyond-buffered-data", "after a decoder call the read cursor is beyond the end of the buffered data", s); R.count("traces"); },
+            rp.run(1, [&](uint64_t, Result& R) { std::string o = consume::all(bytes, true); if (o.find("CURSOR-PAST-END") != std::string::npos) R.violation("mutate|decoder-cursor-beyond-buffered-data", "after a decoder call the read cursor is beyond the end of the buffered data", s); R.count("traces"); },
                    [&](uint64_t, const std::string& d, Result& R) { R.violation("mutate|" + crash_key(d), d.substr(0, 2500), s); }, total);
             return done(total.viol.empty() ? 0 : 1);
         }
